@@ -98,6 +98,8 @@ def configs_for(tree, tier):
 
 
 def shard(args) -> Acc:
+    if args[0] == "clip":
+        return clip_shard(args[1:])
     tier, n, lo, hi = args
     acc = Acc()
     progs = programs(tier, n)[lo:hi]
@@ -118,6 +120,119 @@ def shard(args) -> Acc:
             for clause, detail in viol:
                 acc.violation(Violation(clause, {"tree": t, "shown": F.show(t), "tier": tier, "nz_leaf": nz_leaf, "nz_build": nz_build}, detail,
                                         classes=_classes(t, detail)))
+    acc.states = acc.traces
+    return acc
+
+
+# -- clipper steps (FormulaBuilder.push_clipper): not reachable through the operator API ---------------------
+
+CLIP_BOUNDS = [(0.0, None), (None, 5.0), (-1.0, 2.0)]
+CLIP_FORMS = ["clip(A)", "clip(A)+B", "clip((A+B))", "A*clip(B)"]
+
+
+def _clip(x, lo, hi):
+    if x is None:
+        return None
+    if lo is not None:
+        x = max(x, lo)
+    if hi is not None:
+        x = min(x, hi)
+    return x
+
+
+def clip_reference(form, lo, hi, vals, nz):
+    def leaf(n):
+        v = vals[n]
+        if F.is_missing(v):
+            return 0.0 if nz.get(n, False) else None
+        return float(v)
+
+    a, b = leaf("A"), (leaf("B") if "B" in vals else None)
+    if form == "clip(A)":
+        return _clip(a, lo, hi)
+    if form == "clip(A)+B":
+        c = _clip(a, lo, hi)
+        return None if c is None or b is None else c + b
+    if form == "clip((A+B))":
+        return None if a is None or b is None else _clip(a + b, lo, hi)
+    c = _clip(b, lo, hi)
+    return None if a is None or c is None else a * c
+
+
+def run_clip_form(form, lo, hi, inputs, nz):
+    from frequenz.channels import Broadcast
+    from frequenz.quantities import Quantity
+
+    from frequenz.sdk.timeseries import Sample
+    from frequenz.sdk.timeseries.formula_engine._formula_engine import FormulaBuilder
+
+    from ..vloop import virtual_loop
+
+    names = ["A"] if form == "clip(A)" else ["A", "B"]
+    out = []
+    with virtual_loop() as loop:
+        chans = {n: Broadcast(name=f"in-{n}") for n in names}
+        snd = {n: c.new_sender() for n, c in chans.items()}
+        b = FormulaBuilder("clipped", Quantity)
+
+        def metric(n):
+            b.push_metric(n, chans[n].new_receiver(), nones_are_zeros=nz.get(n, False))
+
+        if form == "clip(A)":
+            metric("A"); b.push_clipper(lo, hi)
+        elif form == "clip(A)+B":
+            metric("A"); b.push_clipper(lo, hi); b.push_oper("+"); metric("B")
+        elif form == "clip((A+B))":
+            b.push_oper("("); metric("A"); b.push_oper("+"); metric("B"); b.push_oper(")"); b.push_clipper(lo, hi)
+        else:
+            metric("A"); b.push_oper("*"); metric("B"); b.push_clipper(lo, hi)
+        eng = b.build()
+        rx = eng.new_receiver()
+        loop.settle()
+        for k, vals in enumerate(inputs):
+            for n in names:
+                v = vals[n]
+                F.push(snd[n], Sample(F.ts(k), None if v is None else Quantity(float(v))))
+            loop.settle()
+            while len(rx):
+                s_ = rx.consume()
+                out.append((int((s_.timestamp - F.T0).total_seconds()), None if s_.value is None else s_.value.base_value))
+    return out
+
+
+def clip_shard(args) -> Acc:
+    tier = args[0]
+    acc = Acc()
+    for form in CLIP_FORMS:
+        names = ["A"] if form == "clip(A)" else ["A", "B"]
+        inputs = inputs_for(names, tier)[: -N_OVERFLOW]
+        for lo, hi in CLIP_BOUNDS:
+            for nz in ({}, {"A": True}, {"B": True}) if len(names) > 1 else ({}, {"A": True}):
+                out = run_clip_form(form, lo, hi, inputs, nz)
+                got = dict(out)
+                acc.traces += 1
+                acc.evaluations += len(inputs)
+                acc.transitions += len(inputs)
+                acc.nontrivial += 1
+                acc.counters["programs"] += 1
+                for c in CLAUSES:
+                    acc.clauses[c] += 1
+                acc.outcome("clipper")
+                viol = []
+                for k, vals in enumerate(inputs):
+                    exp = clip_reference(form, lo, hi, vals, nz)
+                    if k not in got:
+                        viol.append(("exactly_one_sample_per_timestamp", {"timestamp": k, "inputs": jsonv(vals), "expected": exp}))
+                    elif (got[k] is None) != (exp is None):
+                        viol.append(("none_exactly_when_input_missing_or_result_undefined",
+                                     {"timestamp": k, "inputs": jsonv(vals), "got": got[k], "expected": exp}))
+                    elif not F.close(got[k], exp):
+                        viol.append(("missing_configured_as_zero_behaves_like_zero_else_value",
+                                     {"timestamp": k, "inputs": jsonv(vals), "got": got[k], "expected": exp}))
+                    if len(viol) >= 3:
+                        break
+                for clause, detail in viol:
+                    acc.violation(Violation(clause, {"driver": "clipper", "form": form, "bounds": [lo, hi], "nz": nz, "tier": tier}, detail))
     acc.states = acc.traces
     return acc
 
@@ -149,6 +264,7 @@ def run(tier: str, seed: int, workers: int):
         total = len(programs(tier, n))
         for lo in range(0, total, step):
             shards.append((tier, n, lo, lo + step))
+    shards.append(("clip", tier))
     if seed:
         import random
 
@@ -160,6 +276,7 @@ def run(tier: str, seed: int, workers: int):
         "timestamp per subset of leaves missing x encoding None / NaN / +inf / -inf over 2-3 base vectors, plus all sign/zero "
         "vectors over {0, 3, -3} (zero divisors, min/max with each operand order); non-trivial = at least one operator",
         "assumptions": [
+            "clipper steps are only reachable through FormulaBuilder.push_clipper: four forms x three bound pairs x nones_are_zeros per stream",
             "lock-step delivery of inputs",
             "'configured to treat missing values as zero' = nones_are_zeros on from_receiver for that stream, or on the build() that "
             "consumes it",
@@ -175,5 +292,9 @@ def _tuplify(t):
 
 
 def replay(case: dict):
+    if case.get("driver") == "clipper":
+        a = clip_shard((case["tier"],))
+        return [(v.clause, v.detail) for v in a.violations.values()
+                if v.case["form"] == case["form"] and v.case["bounds"] == case["bounds"] and v.case["nz"] == case["nz"]]
     v, _ = check_tree(_tuplify(case["tree"]), case["tier"], case["nz_leaf"], case["nz_build"])
     return v
